@@ -274,6 +274,53 @@ func init() {
 		Rule:   "as C08 with SyncWrites=true; at EVERY persistence event a power-loss image is built from the durable-state tracker (per file: content at its last msync/fsync/O_DSYNC write; per directory: the entries present at its last directory fsync; a linked but never-synced file appears zero-filled at its creation size) and re-opened with the real code; oracles as C08 with acknowledged = Commit returned nil / callback got nil. evaluations = histories; the number of verified power-loss images is in probes",
 		Assume: []string{"strict power-loss model as the property states it: only explicitly synced file contents and directory entries covered by a directory fsync survive", "fd-file syncs (MANIFEST rewrite, KEYREGISTRY) are reported by vhook lines next to the call; the MANIFEST append fsync is reported through the syncFunc seam; mmap-file syncs are reported from inside the instrumented ristretto copy"},
 	})
+	// C27 WriteBatch
+	p27 := profT("T-C27")
+	p27.WBatch = 10
+	p27.MaxOps = 24
+	register(&Scenario{Prop: "C27", Family: "T", Level: "exploration", Profile: p27, NonTrivialProbe: "batch_split",
+		Gen:  func(t *rapid.T) *Case { return GenCase(t, p27) },
+		Rule: "clients mix ordinary transactions with WriteBatch ops (1-12 Set/SetEntry/Delete on repeated keys, sizes and tiny memtables that force internal splits) whose internal commits and callbacks travel through the scheduled pipeline; after Flush()==nil every key of the batch must have reached the write path and the newest entry committed for it must be the last op issued; all later reads go through the C01 oracle. non-trivial = run in which a batch was split into >=2 internal transactions",
+	})
+	// C32 subscribers
+	p32 := profT("T-C32")
+	p32.WSub = 10
+	p32.WIter, p32.WGet = 0, 1
+	p32.MaxOps = 30
+	p32.MinClients, p32.MaxClients = 2, 5
+	p32.Groups = [][]string{nil, {"client", "txn", "doWrites", "writer", "publisher", "subscriber", "txncb"}}
+	register(&Scenario{Prop: "C32", Family: "T", Level: "exploration", Profile: p32, NonTrivialProbe: "subscriber_required_kvs",
+		Gen:  func(t *rapid.T) *Case { return GenCase(t, p32) },
+		Rule: "2-5 clients commit on <=8 nesting keys while some of them hold a subscription (1-2 patterns: a key or its 1-2 byte prefix, with ignored byte positions 0, 1 or 0-1); publisher and subscriber goroutines are scheduled; on unsubscribe the received KV sequence must contain every matching write of commits allocated after the registration event and acknowledged before the unsubscribe began, each exactly once, in commit-ts order, with key/value/version/expiry/user-meta as committed, and nothing for user keys that match no pattern. non-trivial = run in which a subscriber was owed >=1 KV",
+	})
+	// C30 sequences
+	p30 := profT("T-C30")
+	p30.WSeq = 10
+	p30.WIter, p30.WGet, p30.WSet, p30.WDel = 0, 1, 2, 0
+	p30.MaxOps = 30
+	p30.MinClients, p30.MaxClients = 2, 4
+	p30.NoIter = true
+	register(&Scenario{Prop: "C30", Family: "T", Level: "exploration", Profile: p30, NonTrivialProbe: "seq_numbers",
+		Gen: func(t *rapid.T) *Case {
+			c := GenCase(t, p30)
+			c.Cfg.DetectConflicts = true // lessees of one key are arbitrated by conflict detection
+			return c
+		},
+		Rule: "2-4 clients each hold up to two Sequence objects on two shared keys (bandwidth 1-4) and interleave Next / Release / re-lease with lease transactions scheduled step by step; every number returned for a key must be new, and increasing per object (a Next that returns an error is legal; DetectConflicts is on, since lessees of one key are arbitrated by transaction conflicts). non-trivial = run in which >=1 number was handed out",
+	})
+	// C31 merge operator
+	p31 := profT("K-C31")
+	p31.WMerge = 10
+	p31.WIter, p31.WGet, p31.WSet, p31.WDel = 0, 1, 2, 0
+	p31.MaxOps = 30
+	p31.Compaction = true
+	p31.Clock = true
+	p31.NoIter = true
+	p31.Groups = [][]string{nil, {"client", "merge", "compactor", "flusher", "subcompact", "builder", "txn"}}
+	register(&Scenario{Prop: "C31", Family: "K", Level: "exploration", Profile: p31, NonTrivialProbe: "merge_get_multi",
+		Gen:  func(t *rapid.T) *Case { return GenCase(t, p31) },
+		Rule: "clients Add unique values to two shared merge keys (byte concatenation: associative, not commutative) and Get them, while the operators' own ticker-driven compaction (10 ms-1 s), flushes and real LSM compactions are scheduled actors; Get must equal the concatenation, in commit order, of a prefix of the Adds that contains every Add completed before the Get began, ErrKeyNotFound only before the first Add. non-trivial = a Get checked against >=2 Adds",
+	})
 	// C04 own writes
 	p4 := profT("T-C04")
 	p4.WIter = 5
